@@ -481,3 +481,24 @@ func globalsCountOf(m *Module) uint32 { return m.ImportGlobalCount + uint32(len(
 //@   loop 1 (elem *ElementSegment, funcCount uint32, globalsCount uint32, rangeindex int)
 //@     invariant funcCount == funcCountOf(m) && globalsCount == globalsCountOf(m) && elem != nil
 //@     invariant forall e int :: 0 <= e && e <= rangeindex && e < len(elem.Init) ==> elemEntryOK(elem.Init[e], elem.Type, funcCount, globalsCount)
+
+// ---- C04 / C03: table.grow as both engines use it (interpreter directly, compiler through its service
+// loop): fails exactly beyond the limits, otherwise returns the previous size, keeps the old entries and
+// sets the new length (that every new entry holds the given reference - the copy-doubling loop - is not
+// claimed: the solvers do not find the index arithmetic).
+func tableGrowFails(t *TableInstance, cur, delta uint32) bool {
+	n := int64(cur) + int64(delta)
+	return delta != 0 && (n >= 0xffffffff || (t.Max != nil && n > int64(*t.Max)))
+}
+
+//@ prop C04 C03
+//@ func (t *TableInstance) Grow(delta uint32, initialRef Reference) (currentLen uint32)
+//@   requires len(t.References) < 1<<31
+//@   ensures[fails-exactly-beyond-the-limits] (currentLen == 0xffffffff) == old(tableGrowFails(t, uint32(len(t.References)), delta))
+//@   ensures[failure-changes-nothing] currentLen == 0xffffffff ==> len(t.References) == old(len(t.References))
+//@   ensures[returns-previous-size] currentLen != 0xffffffff ==> currentLen == uint32(old(len(t.References))) && len(t.References) == old(len(t.References)) + int(delta)
+//@   ensures[old-entries-kept] forall i int :: 0 <= i && i < old(len(t.References)) ==> t.References[i] == old[Reference](t.References[i])
+//@   modifies t.References, elems(t.References)
+//@   loop 0 (i int, newRegion []Reference)
+//@     invariant 1 <= i && len(newRegion) == int(delta) && len(newRegion) >= 1 && verif_slice_at(newRegion, t.References, int(currentLen)) && len(t.References) == int(currentLen)+int(delta) && int(currentLen) == old[int](len(t.References))
+//@     invariant forall j int :: 0 <= j && j < int(currentLen) ==> t.References[j] == old[Reference](t.References[j])
